@@ -111,6 +111,67 @@ def r4_program_hash_row(ctx, F):
         ctx.violation("program-hash-row", fn.loc(), "DecoderTrace::program_hash returns %s; it must be hasher columns 0..3 of the last row %s" % (got, want))
 
 
+def r6_block_stack_flags(ctx, F):
+    """BlockStack::push, interpreted exhaustively over (parent kind x child kind): the new block's parent address, is_loop_body
+    and is_first_child depend on the parent only - is_loop_body iff the parent is a loop, is_first_child iff the parent is a JOIN
+    whose first child has not run, parent address = the parent's address (0 without parent) - and push returns the parent address;
+    BlockStack::pop marks the parent JOIN's first child as executed"""
+    from .mirsym import Interp, Agg, Poly, Ptr, Opaque, Unanalysable, PanicReached
+    bt = F.adt(r"^miden_processor::decoder::block_stack::BlockType$")
+    bi = F.adt(r"^miden_processor::decoder::block_stack::BlockInfo$")
+    bs = F.adt(r"^miden_processor::decoder::block_stack::BlockStack$")
+    push = F.fn(r"block_stack::BlockStack::push$")
+    pop = F.fn(r"block_stack::BlockStack::pop$")
+    bif = [f["name"] for f in bi["variants"][0]["fields"]]
+    kinds = []
+    for v in bt["variants"]:
+        if v["fields"]:
+            kinds += [(v["name"], (False,)), (v["name"], (True,))]
+        else:
+            kinds.append((v["name"], ()))
+    ctx.floor("block-kinds", len(kinds), 9)
+    BT = lambda k: Agg(list(k[1]), "adt", bt["id"], k[0])
+    none = lambda: Agg([], "adt", "core::option::Option", "None")
+    info = lambda kind, addr: Agg([{"addr": Poly.var(addr), "block_type": BT(kind), "parent_addr": Poly.var("g" + addr), "ctx_info": none(), "is_loop_body": False, "is_first_child": False}[n] for n in bif], "adt", bi["id"], bi["variants"][0]["name"])
+    parents = [None] + [k for k in kinds if k != ("Loop", (False,))]       # an un-entered loop never gets children (debug assertion in push)
+    for parent in parents:
+        for child in kinds:
+            key = "push|parent=%s|child=%s" % (parent and "%s%s" % parent, "%s%s" % child)
+            ctx.inst(key=key, nontrivial=True)
+            st = Agg([Agg([info(parent, "paddr")] if parent else [], "vec")], "adt", bs["id"], bs["variants"][0]["name"])
+            ci = Agg([Opaque("ctx_info")], "adt", "core::option::Option", "Some") if child[0] in ("Call", "SysCall") else none()
+            try:
+                r = Interp(F).call(push.id, [Ptr([st], 0), Poly.var("addr"), BT(child), ci])
+            except (Unanalysable, PanicReached) as e:
+                ctx.violation("UNANALYSABLE|BlockStack::push", push.loc(), "%s: %s" % (key, str(e)[:200]))
+                continue
+            d = dict(zip(bif, st.items[0].items[-1].items))
+            want_addr = "paddr" if parent else "0"
+            want = (want_addr, want_addr, bool(parent and parent[0] == "Loop"), bool(parent and parent == ("Join", (False,))))
+            got = (repr(r), repr(d["parent_addr"]), d["is_loop_body"], d["is_first_child"])
+            ok = got == want and repr(d["addr"]) == "addr" and d["block_type"].variant == child[0] and list(d["block_type"].items) == list(child[1])
+            ctx.oblig(ok)
+            if not ok:
+                ctx.violation("block-flags|parent=%s|child=%s" % (parent and parent[0], child[0] + ("" if not child[1] else str(child[1][0]))), push.loc(),
+                              "BlockStack::push of a %s%s block under %s records (returned parent, parent_addr, is_loop_body, is_first_child) = %s; expected %s: the END / REPEAT rows of this block carry wrong flags"
+                              % (child[0], child[1] or "", ("a %s%s parent" % parent) if parent else "no parent", got, want))
+    # pop: a JOIN parent whose first child just finished is marked
+    for pk, want in ((("Join", (False,)), True), (("Join", (True,)), True)):
+        ctx.inst(key="pop|parent=%s%s" % pk, nontrivial=True)
+        st = Agg([Agg([info(pk, "paddr"), info(("Span", ()), "caddr")], "vec")], "adt", bs["id"], bs["variants"][0]["name"])
+        try:
+            r = Interp(F).call(pop.id, [Ptr([st], 0)])
+        except (Unanalysable, PanicReached) as e:
+            ctx.violation("UNANALYSABLE|BlockStack::pop", pop.loc(), str(e)[:200])
+            continue
+        rest = st.items[0].items
+        pbt = dict(zip(bif, rest[0].items))["block_type"] if len(rest) == 1 else None
+        ok = pbt is not None and pbt.variant == "Join" and list(pbt.items) == [want] and repr(dict(zip(bif, r.items))["addr"]) == "caddr"
+        ctx.oblig(ok)
+        if not ok:
+            ctx.violation("block-pop|%s%s" % pk, pop.loc(), "BlockStack::pop must return the top block and mark its JOIN parent as having executed the first child")
+
+
 def run(ctx, F):
     ctx.trusted += ["rustc MIR via mirfacts", "mirsym", "batching rules of docs/src/design/programs.md and the NOOP alignment rules of docs/src/design/decoder/main.md"]
     ctx.assumptions += ["contents of decoder columns on concrete runs are not decided; the executor is interpreted abstractly on the batch of every reachable accumulator state "
@@ -119,4 +180,5 @@ def run(ctx, F):
     ctx.run_rule("C13-R2", "every decoder row is paired with exactly one execute_op which advances the clock once (shared with C15-R2)", rules_c15.r2_every_cycle, F)
     ctx.run_rule("C13-R2b", "decoder wrappers run one execute_op per row", rules_c15.r2b_calls_in_decoder, F)
     ctx.run_rule("C13-R3", "executor/accumulator agreement: on the batch of every reachable layout execute_op_batch decodes the batch's operations in order, with NOOPs only after a group-final immediate operation and as padding groups, and starts one group per further operation/padding group", r3_executor_agreement, F)
+    ctx.run_rule("C13-R6", "BlockStack::push/pop over all (parent kind x child kind): is_loop_body, is_first_child and the parent address depend on the parent only, as the decoder design states", r6_block_stack_flags, F)
     ctx.run_rule("C13-R4", "the program-hash row: hasher columns 0..3 of the last decoder row", r4_program_hash_row, F)
